@@ -703,3 +703,5 @@ def run(ctx):
     ctx.do(r4_11)
     from . import c15 as _c15b
     ctx.do(_c15b.r15_4)  # STORE addresses exactly the messages its set denotes
+    from . import c03 as _c03p
+    ctx.do(_c03p.r3_5)  # a pack renumbers the messages: the flag table is re-read with the keys
